@@ -13,6 +13,7 @@ from __future__ import unicode_literals
 import re
 
 from calmjs.parse.asttypes import (
+    DotAccessor,
     Identifier,
     If,
     For,
@@ -49,6 +50,10 @@ required_space = re.compile(
     r'^(?:' + _w + _w + r'|\+\+|\-\-|//|' + _w + r'\$|\$' + _w + r')$')
 
 # the various assignments symbols; for dealing with pretty spacing
+# a decimal integer literal directly followed by a dot accessor: the dot
+# would be consumed as the decimal point of the literal.
+integer_literal = re.compile(r'^(?:0|[1-9][0-9]*)$')
+
 assignment_tokens = {
     '*=', '/=', '%=', '+=', '-=', '<<=', '>>=', '>>>=', '&=', '^=', '|=', '='}
 # other symbols
@@ -181,13 +186,19 @@ def layout_handler_space_optional_pretty(
         yield space_imply
         return
 
+    if (isinstance(node, DotAccessor) and after == '.' and
+            integer_literal.match(before)):
+        yield space_imply
+
 
 def layout_handler_space_minimum(dispatcher, node, before, after, prev):
     if before is None or after is None:
         # nothing.
         return
     s = before[-1:] + after[:1]
-    if required_space.match(s):
+    if required_space.match(s) or (
+            isinstance(node, DotAccessor) and after == '.' and
+            integer_literal.match(before)):
         yield space_imply
 
 
